@@ -1,5 +1,6 @@
 import TsVerif.C09.Props
 import TsVerif.C09.TreeLevel
+import TsVerif.C09.Bom
 #print axioms TsVerif.C09.decode_prefix_stable
 #print axioms TsVerif.C09.decode_local
 #print axioms TsVerif.C09.lookahead_chunk_indep
@@ -16,3 +17,6 @@ import TsVerif.C09.TreeLevel
 #print axioms TsVerif.C09.column_cache_eq
 #print axioms TsVerif.C09.offsets_one_to_one
 #print axioms TsVerif.C09.driver_chunk_indep
+#print axioms TsVerif.C09.advance_skip
+#print axioms TsVerif.C09.lexStream_bom
+#print axioms TsVerif.C09.chars_chunk_indep_port_any
